@@ -1005,7 +1005,7 @@ def leaves(t, out=None):
     if out is None:
         out = set()
     k = t[0]
-    if k in ("param", "const", "fnitem", "local", "unknown"):
+    if k in ("param", "const", "fnitem", "local", "unknown", "var"):
         out.add(t)
     elif k == "call":
         if not t[2]:
@@ -1097,7 +1097,7 @@ class Explore:
             d = fn.defs().get(l, [])
             # unnamed temporaries only ever assigned constants; and every bool (named or not: `let all_closed = a && b && c;`) that is
             # assigned by plain moves — its value is then whatever the moved operand evaluates to under the assumptions, or unknown
-            if d and all(r["k"] in ("use", "call") for (_, _, r) in d if r.get("k") != "partial"):
+            if d and all(r["k"] in ("use", "call") or (r["k"] == "un" and r["op"] == "Not") for (_, _, r) in d if r.get("k") != "partial"):
                 auto.append(l)
         self.tracked = tuple(tracked) + tuple(auto)
         self.tries = tries
@@ -1211,6 +1211,9 @@ class Explore:
                 v = self._value_of(r["op"], tuple(st.items()))
                 if v is None:
                     v = self._agg_vidx(r["op"])
+            elif r["k"] == "un" and r["op"] == "Not":
+                v = self._value_of(r["a"], tuple(st.items()))
+                v = 1 - v if v in (0, 1) else None
             st[l] = v
         t = self.fn.blocks[bb]["term"]
         if t["k"] == "call" and not t["dest"]["proj"] and t["dest"]["l"] in st:
